@@ -100,11 +100,11 @@ def apply(c):
         ensures
             r is Ok ==> *old(position) <= *final(position), // @C01:cursor-monotone
             r is Ok ==> *final(position) <= data.len(), // @C01:cursor-in-bounds
-            r is Ok ==> Self::wf_dec(data@, *old(position) as int, &r.unwrap(), *final(position) as int), // @C10:decoded-per-rfc,C02:decoded-per-rfc
+            r is Ok ==> Self::wf_dec(data@, *old(position) as int, &r.unwrap(), *final(position) as int), // @C10:decoded-per-rfc,C02:decoded-per-rfc,C11:decoded-per-rfc
 """)
     c.contract('dns/wire_format.rs', "pub trait WireFormat<'a> {", 'write_to', """
         requires self.wf_ok(),
-        ensures r is Ok ==> wrote(old(out), final(out), self.wf_enc()), // @C10:encoded-per-rfc,C02:encoded-per-rfc,C04:emits-exactly-its-encoding
+        ensures r is Ok ==> wrote(old(out), final(out), self.wf_enc()), // @C10:encoded-per-rfc,C02:encoded-per-rfc,C04:emits-exactly-its-encoding,C11:encoded-per-rfc
 """)
     c.contract('dns/wire_format.rs', "pub trait WireFormat<'a> {", 'len', """
         requires self.wf_ok(),
